@@ -17,6 +17,7 @@ import (
 	"fmt"
 	"math/big"
 	"math/rand"
+	"os"
 	"sort"
 	"sync"
 	"testing"
@@ -106,6 +107,7 @@ const (
 	c09BidGap   = 25 * time.Millisecond
 	c09GraceDur = 30 * time.Millisecond
 	c09Noise    = 25 * time.Millisecond // scheduling lateness above which a run is repeated
+	c09Window   = 50 * time.Millisecond // a delivered bid is taken from the channel within this time (trace spec)
 )
 
 // c09Phases returns the clock phases (0 before the soft time-out, 1 between soft and hard, 2 after
@@ -750,6 +752,14 @@ func (h *c09Harness) runScenario(sc c09Scenario, w *c09Watch, attempt int) (even
 				last = tg
 				au.scripts[r] = append(au.scripts[r], c09Scripted{a: st.A, target: tg})
 			}
+			// A relay that is polled again usually answers with the same bid again: now and then the
+			// last answer is repeated (a new, identical object) once or twice before the relay goes silent.
+			if variant == "deadline" && len(au.scripts[r]) > 0 && rng.Intn(2) == 0 {
+				lastItem := au.scripts[r][len(au.scripts[r])-1]
+				for k := 1 + rng.Intn(2); k > 0; k-- {
+					au.scripts[r] = append(au.scripts[r], lastItem)
+				}
+			}
 		}
 		run.mu.Lock()
 		run.auctions[key] = au
@@ -815,10 +825,14 @@ func (h *c09Harness) runScenario(sc c09Scenario, w *c09Watch, attempt int) (even
 		})
 		// per-relay order is the order of the calls; across relays the order of the instants
 		sort.SliceStable(dels, func(i, j int) bool { return dels[i].d < dels[j].d })
+		window := int64(c09Window / time.Millisecond)
+		if widen {
+			window = 1000000
+		}
 		for _, d := range dels {
 			emit(verifsupport.Ev{"ev": "Deliver", "r": d.r, "n": d.n,
 				"a":   map[string]interface{}{"kind": d.a.Kind, "val": d.a.Val, "bld": d.a.Bld, "hdr": d.a.Hdr, "feeZero": d.a.FeeZero, "tsOk": d.a.TsOk, "sig": d.a.Sig},
-				"phs": c09Phases(variant, d.d, widen), "d_ms": d.d.Milliseconds()})
+				"phs": c09Phases(variant, d.d, widen), "d_ms": d.d.Milliseconds(), "w_ms": window})
 		}
 		ev := verifsupport.Ev{"ev": "Return", "clks": c09ReturnPhases(variant, ret, widen), "ret_ms": ret.Milliseconds(),
 			"win": results.win, "prov": results.prov, "allprov": results.allprov, "part": results.part, "err": results.err != nil}
@@ -1032,5 +1046,12 @@ func TestVerifC09(t *testing.T) {
 			tr.Emit(ev)
 		}
 	}
-	t.Logf("c09: %d scenarios, %d repeated because of scheduling noise", len(scenarios), noisyRuns)
+	widened := 0
+	for _, evs := range results {
+		if len(evs) > 0 && evs[0]["attempt"] == 3 {
+			widened++
+		}
+	}
+	stats := fmt.Sprintf("{\"scenarios\":%d,\"repeated_for_noise\":%d,\"widened\":%d}\n", len(scenarios), noisyRuns, widened)
+	_ = os.WriteFile(os.Getenv("VERIF_TRACE_OUT")+".stats.json", []byte(stats), 0o644)
 }
